@@ -11,6 +11,16 @@
 //	                                      kd 0 AddSubscription, 1 AddBinding (p's feature is the client of a local server
 //	                                      feature reserved for it), 2 SubscribeToRemote, 3 BindToRemote (local client feature)
 //
+//	3 p k p' kd fid alen a.. di nE (ent)* nF (feat)*
+//	                                      datagram of peer p as in op 1, during whose removal cascade the subscription (kd 0) or
+//	                                      binding (kd 1) request call of ANOTHER peer p' for its feature (a, fid) is delivered
+//	                                      through p''s HandleSpineMesssage on a second goroutine: a core-level event handler starts
+//	                                      it on the first subscription- (binding-) removed event the registry publishes, gives it
+//	                                      2 ms and returns; the runner waits for it after the datagram of p has been handled. Without
+//	                                      such an event the call is delivered right after. The model is the sequential composition
+//	                                      (the registry lock serialises the call after the removal); the bounded wait can only make
+//	                                      the check miss a lost update, never raise an alarm.
+//
 // obs encoding (print_obs): 0 <snapshot> | 1 p (device event) | 2 p added alen a.. (entity event) | 3 ok
 // snapshot = for each peer: known nEnt (alen a.. type dflag d nFeat (id ftype role dflag d nOps (fn k)*)*)*, then
 // nReg (p kd fid alen a..)* sorted by (kd, p, a, fid).
@@ -25,6 +35,7 @@ import (
 	"os"
 	"sort"
 	"sync"
+	"time"
 
 	"github.com/enbility/spine-go/api"
 	"github.com/enbility/spine-go/model"
@@ -90,12 +101,57 @@ func descrNum(d *model.DescriptionType) hx.Zs {
 	return hx.Zs{1, n}
 }
 
-type writer struct{}
+// writer keeps the result messages the stack sends to a peer (only while a request call is being delivered)
+type writer struct {
+	mu      sync.Mutex
+	capture bool
+	msgs    [][]byte
+}
 
-func (writer) WriteShipMessageWithPayload([]byte) {}
+func (wr *writer) WriteShipMessageWithPayload(b []byte) {
+	wr.mu.Lock()
+	if wr.capture {
+		wr.msgs = append(wr.msgs, append([]byte(nil), b...))
+	}
+	wr.mu.Unlock()
+}
+
+// granted reports whether a result without error referring to message counter ctr was sent
+func (wr *writer) granted(ctr int64) bool {
+	wr.mu.Lock()
+	defer wr.mu.Unlock()
+	ok := false
+	for _, b := range wr.msgs {
+		var d model.Datagram
+		if json.Unmarshal(b, &d) != nil {
+			continue
+		}
+		h := d.Datagram.Header
+		if h.MsgCounterReference == nil || int64(*h.MsgCounterReference) != ctr || len(d.Datagram.Payload.Cmd) == 0 {
+			continue
+		}
+		if rd := d.Datagram.Payload.Cmd[0].ResultData; rd != nil && rd.ErrorNumber != nil && *rd.ErrorNumber == 0 {
+			ok = true
+		}
+	}
+	wr.capture, wr.msgs = false, nil
+	return ok
+}
+
+// a request call of another peer waiting to be delivered during a removal cascade
+var callStats = map[string]int{}
+
+type during struct {
+	kd      int64
+	deliver func()
+	started bool
+	entered chan struct{}
+	done    chan struct{}
+}
 
 type peerRec struct {
 	dev    api.DeviceRemoteInterface
+	wr     *writer
 	reader interface {
 		HandleSpineMesssage([]byte) (*model.MsgCounterType, error)
 	}
@@ -110,6 +166,7 @@ type world struct {
 	cli    api.FeatureLocalInterface
 	srv    map[string]api.FeatureLocalInterface
 	peers  [nPeers]*peerRec
+	during *during
 	ctr    int64
 }
 
@@ -123,8 +180,9 @@ func newWorld() hx.Impl {
 	w.ent.AddFeature(w.cli)
 	_ = spine.VerifStackSubscribeCore(w)
 	for p := 0; p < nPeers; p++ {
-		rdr := w.local.SetupRemoteDevice(fmt.Sprintf("s%d", p), writer{})
-		w.peers[p] = &peerRec{dev: w.local.RemoteDeviceForSki(fmt.Sprintf("s%d", p)), reader: rdr.(interface {
+		wr := &writer{}
+		rdr := w.local.SetupRemoteDevice(fmt.Sprintf("s%d", p), wr)
+		w.peers[p] = &peerRec{wr: wr, dev: w.local.RemoteDeviceForSki(fmt.Sprintf("s%d", p)), reader: rdr.(interface {
 			HandleSpineMesssage([]byte) (*model.MsgCounterType, error)
 		})}
 	}
@@ -162,6 +220,34 @@ func (w *world) HandleEvent(p api.EventPayload) {
 		default:
 			z = hx.Zs{95, peer}
 		}
+	case api.EventTypeSubscriptionChange, api.EventTypeBindingChange:
+		// the registry publishes a removal: deliver the other peer's pending call now, on its own goroutine
+		// (never from here: the registry may hold its lock), and give it a moment
+		if p.ChangeType != api.ElementChangeRemove {
+			return
+		}
+		w.mu.Lock()
+		d := w.during
+		if d == nil || d.started || (d.kd == 0) != (p.EventType == api.EventTypeSubscriptionChange) {
+			w.mu.Unlock()
+			return
+		}
+		d.started = true
+		w.mu.Unlock()
+		go func() {
+			close(d.entered)
+			d.deliver()
+			close(d.done)
+		}()
+		select {
+		case <-d.entered:
+			select {
+			case <-d.done:
+			case <-time.After(2 * time.Millisecond):
+			}
+		case <-time.After(100 * time.Millisecond):
+		}
+		return
 	default:
 		return
 	}
@@ -218,7 +304,12 @@ func possibleOps(k int64) *model.PossibleOperationsType {
 }
 
 func (w *world) message(r *rd) []byte {
-	p, k, di := r.n(), r.n(), r.n() != 0
+	p, k := r.n(), r.n()
+	return w.messageOf(p, k, r)
+}
+
+func (w *world) messageOf(p, k int64, r *rd) []byte {
+	di := r.n() != 0
 	data := &model.NodeManagementDetailedDiscoveryDataType{}
 	if k == 0 || di {
 		data.DeviceInformation = &model.NodeManagementDetailedDiscoveryDeviceInformationType{
@@ -400,6 +491,48 @@ func (w *world) serverFeature(p, kd int64, a []int64, fid int64) api.FeatureLoca
 	return f
 }
 
+// requestCall builds peer p2's subscription (kd 0) / binding (kd 1) request call for its feature (a, fid), or nil when
+// the operation delivers none: same peer, entry already there, no such client feature
+func (w *world) requestCall(p, p2, kd, fid int64, a []int64) ([]byte, int64) {
+	if p == p2 || (kd != 0 && kd != 1) {
+		return nil, 0
+	}
+	for _, e := range w.registry() {
+		if e.p == p2 && e.kd == kd && e.fid == fid && cmpAddr(e.a, a) == 0 {
+			return nil, 0
+		}
+	}
+	ra := remoteFeatureAddr(p2, a, fid)
+	cf := w.peers[p2].dev.FeatureByAddress(ra)
+	if cf == nil {
+		return nil, 0
+	}
+	ft := cf.Type()
+	sa := w.serverFeature(p2, kd, a, fid).Address()
+	ca := &model.FeatureAddressType{Device: devOf(p2), Entity: ra.Entity, Feature: ra.Feature}
+	var cmd model.CmdType
+	if kd == 0 {
+		cmd.NodeManagementSubscriptionRequestCall = spine.NewNodeManagementSubscriptionRequestCallType(ca, sa, ft)
+	} else {
+		cmd.NodeManagementBindingRequestCall = spine.NewNodeManagementBindingRequestCallType(ca, sa, ft)
+	}
+	w.ctr++
+	cls := model.CmdClassifierTypeCall
+	h := model.HeaderType{
+		SpecificationVersion: &spine.SpecificationVersion,
+		AddressSource:        &model.FeatureAddressType{Device: devOf(p2), Entity: entAddr([]int64{0}), Feature: util.Ptr(model.AddressFeatureType(0))},
+		AddressDestination:   &model.FeatureAddressType{Device: util.Ptr(model.AddressDeviceType("d0")), Entity: entAddr([]int64{0}), Feature: util.Ptr(model.AddressFeatureType(0))},
+		MsgCounter:           util.Ptr(model.MsgCounterType(w.ctr)),
+		CmdClassifier:        &cls,
+		AckRequest:           util.Ptr(true),
+	}
+	b, err := json.Marshal(model.Datagram{Datagram: model.DatagramType{Header: h, Payload: model.PayloadType{Cmd: []model.CmdType{cmd}}}})
+	if err != nil {
+		panic(err)
+	}
+	return b, w.ctr
+}
+
 func (w *world) regAdd(p, kd, fid int64, a []int64) bool {
 	for _, e := range w.registry() {
 		if e.p == p && e.kd == kd && e.fid == fid && cmpAddr(e.a, a) == 0 {
@@ -540,6 +673,64 @@ func (w *world) Exec(op hx.Zs) (out []hx.Zs) {
 			}()
 			_, _ = w.peers[p].reader.HandleSpineMesssage(b)
 		}()
+	case 3:
+		p, k, p2, kd, fid := r.n(), r.n(), r.n(), r.n(), r.n()
+		a := r.addr()
+		if p < 0 || p >= nPeers || p2 < 0 || p2 >= nPeers {
+			break
+		}
+		b := w.messageOf(p, k, r)
+		call, ctr := w.requestCall(p, p2, kd, fid, a)
+		var d *during
+		if call != nil {
+			d = &during{kd: kd, entered: make(chan struct{}), done: make(chan struct{}),
+				deliver: func() {
+					defer func() { _ = recover() }()
+					_, _ = w.peers[p2].reader.HandleSpineMesssage(call)
+				}}
+			w.peers[p2].wr.mu.Lock()
+			w.peers[p2].wr.capture = true
+			w.peers[p2].wr.mu.Unlock()
+			w.mu.Lock()
+			w.during = d
+			w.mu.Unlock()
+		}
+		func() {
+			defer func() {
+				if e := recover(); e != nil {
+					res = append(res, hx.Zs{97})
+				}
+			}()
+			_, _ = w.peers[p].reader.HandleSpineMesssage(b)
+		}()
+		ok := false
+		if d == nil {
+			callStats["call-not-delivered"]++
+		}
+		if d != nil {
+			w.mu.Lock()
+			started := d.started
+			d.started = true // no removal event: the call is delivered now
+			w.during = nil
+			w.mu.Unlock()
+			if started {
+				callStats["call-delivered-during-removal-cascade"]++
+				select {
+				case <-d.done:
+				case <-time.After(10 * time.Second):
+					res = append(res, hx.Zs{94})
+				}
+			} else {
+				callStats["call-delivered-after-message-without-removal-event"]++
+				d.deliver()
+			}
+			ok = w.peers[p2].wr.granted(ctr)
+		}
+		if ok {
+			res = append(res, hx.Zs{3, 1})
+		} else {
+			res = append(res, hx.Zs{3, 0})
+		}
 	case 2:
 		p, kd, fid := r.n(), r.n(), r.n()
 		a := r.addr()
@@ -573,7 +764,7 @@ func main() {
 		Clauses: map[int64]string{1: "entity-addresses-differ", 2: "entity-type-differs", 3: "entity-content-differs",
 			4: "entity-events-not-exact", 5: "cascade-not-exact", 6: "other-peer-changed", 7: "registry-call", 8: "no-snapshot",
 			98: "unparseable-observation", 99: "unparseable-operation"},
-		OpNames: map[int64]string{1: "discovery-message", 2: "registry-call"},
+		OpNames: map[int64]string{1: "discovery-message", 2: "registry-call", 3: "discovery-message-with-concurrent-request-call"},
 		NewImpl: newWorld,
 		Gen:     gen,
 		Fixed:   fixed,
